@@ -2,7 +2,8 @@
 
 Parts (DESIGN.md section 6, C06):
   * proof obligations: coq/Props/C06.v over coq/C06/{Xsd,Model}.v and the tables generated from
-    the emitter's source (coq/Gen/XsdEmit.v, coq/Gen/NumTypes.v);
+    the emitter's source (coq/Gen/XsdEmit.v, coq/Gen/NumTypes.v); coq/Props/C06_src.v over the
+    tables generated from the SOAP protocols and the member-editing primitives (coq/Gen/XsdState.v);
   * correspondences, per generated type universe (real Spyne classes AND a Gallina term):
       schema    Model.schema_of  vs  the schema documents XmlSchema really builds (parsed fail-closed),
       xsd       Xsd.valid_doc on the real schema  vs  lxml.etree.XMLSchema.validate,
@@ -22,6 +23,7 @@ from lib import gz, gtext, glist, gbool, gopt
 THEOREMS = ['C06_emitted_valid_partial', 'C06_decimal_literal', 'C06_decimal_literal_valid', 'C06_decimal_wire_refuted',
             'C06_nil_required_refuted', 'C06_verdicts_agree', 'C06_verdicts_agree_structure', 'C06_int_verdicts_agree', 'C06_str_verdicts_agree', 'C06_bool_verdicts_agree',
             'C06_closure_check_sound', 'C06_ex_emitted_valid', 'C06_ex_int_agree', 'C06_ex_str_agree', 'C06_ex_verdicts']
+SRC_THEOREMS = ['C06_soap_writers_iso_safe', 'C06_member_edits_reach_subclasses']
 FUEL = 12
 XSD_NS = 'http://www.w3.org/2001/XMLSchema'
 XSI_NS = 'http://www.w3.org/2001/XMLSchema-instance'
@@ -436,11 +438,14 @@ def import_gaps(schema_docs):
 class World(object):
     """a generated universe rendered as real Spyne applications and as Gallina terms"""
 
-    def __init__(self, rng, desc, proto='xml'):
+    def __init__(self, rng, desc, proto='xml', classes=None, svc=None, base_desc=None, steps=None):
+        """classes / svc: the (already used, then changed) classes of an evolving universe, desc being what they
+        declare now; base_desc / steps: what they declared when they were built and what was done to them since"""
         from spyne.interface.xml_schema import XmlSchema
         self.desc, self.proto = desc, proto
-        self.classes = G.build_spyne(desc)
-        self.svc = G.build_service(desc, self.classes)
+        self.base_desc, self.steps = base_desc, steps
+        self.classes = classes if classes is not None else G.build_spyne(desc)
+        self.svc = svc or G.build_service(desc, self.classes)
         self.compile_error = None
         self.app_s = G.build_app(desc, self.classes, proto, 'soft', self.svc)
         self.app_n = G.build_app(desc, self.classes, proto, None, self.svc)
@@ -456,6 +461,12 @@ class World(object):
         gaps = import_gaps(self.schema_docs)
         if gaps and not self.compile_error:
             self.compile_error = 'missing xs:import: the schema of %r refers to %r without importing it' % gaps[0]
+
+    def urp(self):
+        """the universe part of a replay record"""
+        if self.steps is not None:
+            return {'universe': self.base_desc, 'evolve': self.steps}
+        return {'universe': self.desc}
 
     def request(self, cid, v):
         o = G.to_native(self.desc, self.classes, v)
@@ -524,6 +535,7 @@ def corr_universe(check, ui, tier):
     from lxml import etree
     import universe as U0
     rng = check.rng
+    G.VARIANTS[0] = False
     desc = gen_desc(rng, tier, ui, proved_only=(ui % 2 == 1))
     W = World(rng, desc, 'xml')
     if W.compile_error:
@@ -642,6 +654,8 @@ def dec_exponent(v):
     finding C06|decimal|exponent-notation)?"""
     if v[0] == 'dec':
         return 'E' in str(D(v[1]))
+    if v[0] == 'as':
+        return v[1] not in ('int', 'float') and dec_exponent(v[2])
     if v[0] == 'list':
         return any(dec_exponent(x) for x in v[1])
     if v[0] == 'obj':
@@ -838,7 +852,7 @@ def oracle_emitted(check, W, ui, cid, v, tag=''):
     schema it publishes; (c) on the same documents: soft validation accepts what lxml accepts"""
     from lxml import etree
     desc, proto = W.desc, W.proto
-    rp = {'kind': 'emitted', 'proto': proto, 'universe': desc, 'cid': cid, 'value': v}
+    rp = dict(W.urp(), kind='emitted', proto=proto, cid=cid, value=v)
     region = nil_required(desc, ['ref', cid], v)
     dexp = dec_exponent(v)
     try:
@@ -900,7 +914,7 @@ def oracle_verdicts(check, W, ui, cid, body, notes, what='generated'):
     """(c): lxml and soft reach the same verdict on a document in declared order, unless a
     constraint only one of them implements is at stake (notes 'schema-only:*')"""
     notes = sorted(set(notes))
-    rp = {'kind': 'verdict', 'proto': W.proto, 'universe': W.desc, 'cid': cid, 'doc': body.decode('utf8'), 'notes': notes}
+    rp = dict(W.urp(), kind='verdict', proto=W.proto, cid=cid, doc=body.decode('utf8'), notes=notes)
     lv = verdict(W.app_l, body)
     sv = verdict(W.app_s, body)
     check.count(('oracle-verdict', W.proto, body))
@@ -929,17 +943,20 @@ def oracle_verdicts(check, W, ui, cid, body, notes, what='generated'):
                            % ('accept' if accepted(lv) else 'reject', 'valid' if want else 'invalid', ','.join(notes), body.decode('utf8')[:400]))
 
 
-def oracle_universe(check, ui, tier, desc=None, proto=None, tag='', per_class=None, where=''):
+def oracle_universe(check, ui, tier, desc=None, proto=None, tag='', per_class=None, where='', W=None):
     from lxml import etree
     rng = check.rng
-    proto = proto or ('xml', 'soap11', 'soap12')[ui % 3]
-    desc = desc or gen_desc(rng, tier, ui, wide=True)
-    W = World(rng, desc, proto)
+    G.VARIANTS[0] = True
+    if W is None:
+        proto = proto or ('xml', 'soap11', 'soap12')[ui % 3]
+        desc = desc or gen_desc(rng, tier, ui, wide=True)
+        W = World(rng, desc, proto)
+    desc, proto = W.desc, W.proto
     if W.compile_error:
         shape = compile_shape(W.compile_error)
         check.fail('C06|compile|' + (tag or (shape if shape == 'inherited-exclusive-bound' or not where else where + '|' + shape)),
                    'the schema Spyne generates does not compile%s: %s' % (' (%s)' % where if where else '', W.compile_error),
-                   {'kind': 'compile', 'proto': proto, 'universe': desc})
+                   dict(W.urp(), kind='compile', proto=proto))
         return
     per_class = per_class or (4 if tier == 'quick' else 10)
     for cid in desc.get('methods', range(len(W.classes))):
@@ -993,6 +1010,12 @@ def corpus():
               fld('n', ['leaf', {'base': 'integer', 'facets': {'lt': ['int', 129], 'ge': ['int', 100]}, 'named': 0,
                                  'own': {'ge': ['int', 100]}, 'plain': False}])]}]}
     out.append(('inherited-exclusive-bound', d7, [(0, ['obj', 0, [['int', 128]]])]))
+    # known finding: a bool (an int in Python) held by an Integer / Decimal / Double member
+    d8 = {'tns': 'urn:tns', 'classes': [{'ns': 'urn:t', 'name': 'K0', 'parent': None,
+                                        'fields': [fld('i', leaf('integer')), fld('c', leaf('decimal')), fld('f', leaf('double'))]}]}
+    out.append(('bool-as-number', d8, [(0, ['obj', 0, [['as', 'bool', ['int', 1]], ['none'], ['none']]]),
+                                       (0, ['obj', 0, [['none'], ['as', 'bool', ['dec', '0']], ['none']]]),
+                                       (0, ['obj', 0, [['none'], ['none'], ['as', 'bool', ['dbl', '1.0']]]])]))
     return out
 
 
@@ -1007,6 +1030,8 @@ def oracle_corpus(check, tier):
             for cid, v in vals:
                 if tag == 'choice-group-in-two-runs':
                     oracle_emitted_tagged(check, W, cid, v, 'C06|choice|group-in-two-runs|emitted')
+                elif tag == 'bool-as-number':
+                    oracle_emitted_tagged(check, W, cid, v, 'C06|native|bool-as-number|emitted')
                 else:
                     oracle_emitted(check, W, 0, cid, v, tag if tag not in ('nil-required-attribute', 'decimal-exponent-value') else '')
             if tag == 'empty-string':
@@ -1034,6 +1059,10 @@ def facet_corpus():
         ('dateTime', {'le': ['dt', '2020-02-28T12:00:00+00:00']}),
     ]
     singles.append(('uuid', {}))
+    # float bounds / enumerations that do not survive six decimals
+    singles += [('double', {'ge': ['dbl', '2.5e-06']}), ('double', {'lt': ['dbl', '0.1234567']}),
+                ('double', {'gt': ['dbl', '1.25e-07'], 'le': ['dbl', '3.0000004']}),
+                ('double', {'values': [['dbl', '0.1234567'], ['dbl', '1.25e-07'], ['dbl', '123456.7890123']]})]
     for i, (base, fa) in enumerate(singles):
         leaf = {'base': base, 'facets': fa}
         f = {'name': 'v', 'ty': ['leaf', leaf], 'min': 0, 'max': 3, 'nillable': False, 'kind': 'elem', 'choice': None, 'default': None}
@@ -1153,8 +1182,138 @@ def oracle_bytes(check, tier):
             oracle_emitted(check, W, 0, 0, ['obj', 0, vals], 'chunked-bytes')
 
 
+def warm_up(W):
+    """use every class once, on every path: a request for each operation through the three
+    applications, a request and a response written for an empty instance"""
+    from lxml import etree
+    for cid in W.desc.get('methods', range(len(W.classes))):
+        m, body = wrap(W.proto, W.desc['tns'], 'm%d' % cid, etree.Element('{%s}x' % W.desc['tns']))
+        for app in (W.app_s, W.app_n, W.app_l):
+            if app is not None:
+                try:
+                    serve(app, body, ret=W.classes[cid]())
+                except Exception:
+                    pass
+        try:
+            make_client(W.app_s, 'm%d' % cid).request(W.classes[cid]())
+        except Exception:
+            pass
+        W.classes[cid].get_flat_type_info(W.classes[cid])
+
+
+def evolved_world(rng, desc0, steps, proto):
+    """classes built for desc0 and used; then members appended / inserted / replaced; then fresh
+    applications over the same classes.  Deterministic in (desc0, steps, proto)."""
+    W0 = World(rng, desc0, proto)
+    prepared = G.prepare_evolution(desc0, W0.classes, steps)
+    warm_up(W0)
+    G.commit_evolution(prepared)
+    return World(rng, G.evolve_desc(desc0, steps), proto, classes=W0.classes, svc=W0.svc, base_desc=desc0, steps=steps)
+
+
+def evolve_corpus():
+    """a base class, a class derived from it and a class that holds both (as member, repeated
+    member and Array item); one universe per member-editing primitive, applied to the base class"""
+    def leaf(base, **fa):
+        return ['leaf', {'base': base, 'facets': fa}]
+
+    def fld(name, ty, mn=0, mx=1, nillable=True, kind='elem'):
+        return {'name': name, 'ty': ty, 'min': mn, 'max': mx, 'nillable': nillable, 'kind': kind, 'choice': None, 'default': None}
+    desc0 = {'tns': 'urn:tns', 'classes': [
+        {'ns': 'urn:t', 'name': 'K0', 'parent': None, 'fields': [fld('a', leaf('string')), fld('n', leaf('integer', ge=['int', 0]), 1, 1, False)]},
+        {'ns': 'urn:u', 'name': 'K1', 'parent': 0, 'fields': [fld('b', leaf('string', max_len=5))]},
+        {'ns': 'urn:t', 'name': 'K2', 'parent': 1, 'fields': [fld('c', leaf('boolean'))]},
+        {'ns': 'urn:t', 'name': 'K3', 'parent': None, 'fields': [fld('k', ['ref', 1], 1, 1, False), fld('ks', ['ref', 2], 0, 3),
+                                                                 fld('ka', ['arr', ['ref', 1]])]}]}
+    new = fld('e', leaf('string', min_len=1, max_len=3), 1, 1, False)
+    att = fld('x', leaf('unsignedByte', le=['int', 9]), 1, 1, True, 'attr')
+    rep = fld('a', leaf('string', min_len=2, pattern='[a-z]+'), 1, 1, False)
+    return [('append', desc0, [{'op': 'append', 'cid': 0, 'index': 2, 'field': new}]),
+            ('insert', desc0, [{'op': 'insert', 'cid': 0, 'index': 0, 'field': new}]),
+            ('replace', desc0, [{'op': 'replace', 'cid': 0, 'index': 0, 'field': rep}]),
+            ('append-attribute', desc0, [{'op': 'append', 'cid': 0, 'index': 2, 'field': att}]),
+            ('append-middle', desc0, [{'op': 'append', 'cid': 1, 'index': 1, 'field': new}])]
+
+
+def oracle_evolving(check, tier):
+    """(a) (b) (c) on universes that change after they have been used: the schema, the writer and
+    both validators of the fresh applications must all see the members the classes declare now"""
+    rng = check.rng
+    for i, (tag, desc0, steps) in enumerate(evolve_corpus()):
+        W = evolved_world(rng, desc0, steps, ('xml', 'soap11', 'soap12')[i % 3])
+        oracle_universe(check, i, tier, W=W, per_class=2 if tier == 'quick' else 6, where='evolved|' + tag)
+    for ui in range(6 if tier == 'quick' else 45):
+        for _ in range(20):
+            desc0 = G.gen_universe(rng, n_classes=rng.randint(2, 4), namespaces=('urn:t', 'urn:u') if ui % 2 else ('urn:t',))
+            if any(c['parent'] is not None for c in desc0['classes']):
+                break
+        steps = G.gen_evolution(rng, desc0, rng.randint(1, 2))
+        try:
+            W = evolved_world(rng, desc0, steps, ('xml', 'soap11', 'soap12')[ui % 3])
+        except Exception as e:
+            check.fail('C06|evolve-crash|%s' % type(e).__name__, 'Spyne raised %s while members were added to used classes: %s'
+                       % (type(e).__name__, str(e)[:200]), {'kind': 'compile', 'proto': 'xml', 'universe': desc0, 'evolve': steps})
+            continue
+        oracle_universe(check, ui, tier, W=W, per_class=3 if tier == 'quick' else 6, where='evolved')
+
+
+def natives_universe():
+    """Date / Time / DateTime / Decimal / Double / Boolean / string members as element, repeated
+    element, Array item and attribute"""
+    def fld(name, base, mn=0, mx=1, nillable=True, kind='elem', arr=False):
+        ty = ['leaf', {'base': base, 'facets': {}}]
+        return {'name': name, 'ty': ['arr', ty] if arr else ty, 'min': mn, 'max': mx, 'nillable': nillable, 'kind': kind,
+                'choice': None, 'default': None}
+    fields = []
+    for b, n in (('date', 'd'), ('time', 't'), ('dateTime', 'dt'), ('decimal', 'c'), ('double', 'f'), ('boolean', 'b'), ('string', 's')):
+        fields += [fld(n, b, 1, 1, False), fld(n + 'm', b, 0, 3), fld(n + 'a', b, arr=True), fld(n + 'x', b, kind='attr')]
+    return {'tns': 'urn:tns', 'classes': [{'ns': 'urn:t', 'name': 'K0', 'parent': None, 'fields': fields}]}
+
+
+def oracle_natives(check, tier):
+    """(b) per protocol (the SOAP protocols replace some serializers) for conformant values handed
+    over as every compatible Python type: datetime.datetime for a Date (naive and aware), int and
+    float for a Decimal, int for a Double and a Boolean, a str subclass for a string; Time and
+    DateTime values with and without microseconds / tzinfo"""
+    rng = check.rng
+    desc = natives_universe()
+    kinds = {'date': ['datetime', 'datetime-utc', None], 'decimal': ['int', 'float', None], 'double': ['int', None],
+             'boolean': ['int', None], 'string': ['strsub', None]}
+
+    def value(leaf, i):
+        for _ in range(80):
+            v = G.gen_leaf_value(rng, leaf, True)
+            ks = kinds.get(leaf['base'], [None])
+            k = ks[i % len(ks)]
+            if v is None or k is None:
+                return v
+            G.VARIANTS[0] = True
+            w = G.variant_of(rng, leaf, v, 1.1)
+            if w[0] == 'as' and w[1] == k:
+                return w
+        return v
+    for proto in ('xml', 'soap11', 'soap12'):
+        W = World(rng, desc, proto)
+        if W.compile_error:
+            check.fail('C06|compile|natives-universe', 'the schema Spyne generates does not compile: ' + W.compile_error,
+                       {'kind': 'compile', 'proto': proto, 'universe': desc})
+            continue
+        for i in range(4 if tier == 'quick' else 24):
+            vals = []
+            for j, f in enumerate(desc['classes'][0]['fields']):
+                t = f['ty']
+                if t[0] == 'arr' or G.is_multi(f):
+                    leaf = t[1][1] if t[0] == 'arr' else t[1]
+                    vals.append(['list', [x for x in (value(leaf, i + j + n) for n in range(rng.randint(1, 2))) if x is not None]])
+                else:
+                    x = value(t[1], i + j)
+                    vals.append(x if x is not None else ['none'])
+            if not dec_exponent(['obj', 0, vals]):
+                oracle_emitted(check, W, 0, 0, ['obj', 0, vals], 'native-types')
+
+
 def oracle_emitted_tagged(check, W, cid, v, key):
-    rp = {'kind': 'emitted', 'proto': W.proto, 'universe': W.desc, 'cid': cid, 'value': v, 'which': 'request'}
+    rp = dict(W.urp(), kind='emitted', proto=W.proto, cid=cid, value=v, which='request')
     req = W.request(cid, v)
     ok, msg = W.lxml_ok(payload(W.proto, req))
     if not ok:
@@ -1180,7 +1339,17 @@ def run(check):
                   'every schema document must import each namespace it refers to (checked on the documents, besides lxml compiling them); '
                   'ByteArray values given as tuples / lists of chunks (non-final chunk lengths not divisible by 3, empty chunks) under '
                   'the base64, hex and urlsafe encodings, as element, repeated element, Array item and attribute, whose written text '
-                  'must strictly decode to the concatenation of the chunks; near misses of the Uuid pattern. A case is distinct by '
+                  'must strictly decode to the concatenation of the chunks; near misses of the Uuid pattern; Double bounds / '
+                  'enumerations / defaults that need more than six decimals or lie below 1e-6, with values between a bound and its '
+                  'six-decimal rounding; conformant leaf values handed over as other Python types that are instances of (or commonly '
+                  'passed for) the native type (datetime.datetime, naive and aware, for a Date; int and float for a Decimal; int for a '
+                  'Double and a Boolean; a str subclass for a string), in random universes and in one fixed universe of Date / Time / '
+                  'DateTime / Decimal / Double / Boolean / string members (element, repeated element, Array item, attribute) written '
+                  'by XmlDocument, Soap11 and Soap12 on every run; EVOLVING universes: the classes are built and used once on every '
+                  'path (which memoizes their flattened member tables), then members are appended to / inserted into / replaced in '
+                  'classes (mostly classes others derive from; mandatory, restricted members; nothing but the append_field / '
+                  'insert_field / _replace_field calls in between), then fresh applications over the same classes go through (a), (b) '
+                  'and (c) against what the classes declare now -- five fixed universes and six random ones per quick run. A case is distinct by '
                   '(operation, protocol, document or value)')
     check.trusted = list(lib.COMMON_TRUSTED) + [
         'coq/C06/Xsd.v: the XSD validity relation for the published subset, written from XML Schema 1.0 parts 1 and 2 '
@@ -1217,15 +1386,23 @@ def run(check):
         'lexical leniency of the Python readers (C05 findings) is not C06\'s subject: generated documents carry canonical literals',
         'polymorphic output and xsi:type, sub_name / sub_ns, XmlData, AnyXml / AnyDict / File, headers and faults are outside the '
         'modelled universe; "the schema compiles" is observed with lxml, not proved',
+        'C06_soap_writers_iso_safe / C06_member_edits_reach_subclasses (Props/C06_src.v) tie two assumptions of the model to source '
+        'text outside the schema emitter: one writer for XmlDocument / Soap11 / Soap12 (the serializers the SOAP protocols replace by '
+        'isoformat() are those of Time and DateTime only), and a member table read as the classes declare it when a document is '
+        'handled (editing a class forgets the memoized flattened tables of every class); the behaviour itself is observed by the '
+        'direct oracle (native-type variants per protocol, evolving universes), not modelled',
+        'Python values that are not instances of the documented native type are not generated (a datetime for a Time, a Decimal for '
+        'a Double, a date for a DateTime); a bool held by a numeric member is the known finding C06|native|bool-as-number',
         'named simple types, second customisation steps on them, and the hex / urlsafe encodings of ByteArray are covered by the '
         'direct oracle only: the Gallina universe publishes every restricted leaf as a one-step restriction of its primitive. A second '
         'step never widens the first, never changes its pattern, and carries no facets when the first has gt / lt (known finding '
         'C06|compile|inherited-exclusive-bound)',
     ]
-    check.regen(['numtypes', 'xsdemit'])
+    check.regen(['numtypes', 'xsdemit', 'xsdstate'])
     check.check_sources()
     if THEOREMS:
         check.prove('Props.C06', THEOREMS)
+        check.prove('Props.C06_src', SRC_THEOREMS)
     else:
         ok, log = lib.build(['C06/Check.vo'])
         if not ok:
@@ -1234,6 +1411,8 @@ def run(check):
     oracle_facets(check, tier)
     oracle_xns(check, tier)
     oracle_bytes(check, tier)
+    oracle_natives(check, tier)
+    oracle_evolving(check, tier)
     corr_leaf_stream(check, tier)
     corr_decimal_text(check, tier)
     for ui in range(8 if tier == 'quick' else 60):
@@ -1257,7 +1436,12 @@ def replay(check, path):
     desc = rp['universe']
     if isinstance(desc, str) and desc.startswith('corpus:'):
         desc = [d for t, d, _ in corpus() if t == desc.split(':', 1)[1]][0]
-    W = World(check.rng, desc, rp.get('proto', 'xml'))
+    if rp.get('evolve') is not None:
+        print('evolution:', json.dumps(rp['evolve'])[:800])
+        W = evolved_world(check.rng, desc, rp['evolve'], rp.get('proto', 'xml'))
+        desc = W.desc
+    else:
+        W = World(check.rng, desc, rp.get('proto', 'xml'))
     if rp['kind'] == 'compile' or W.compile_error:
         print('schema compiles:', W.compile_error is None, W.compile_error or '')
         return 1 if W.compile_error else 0
